@@ -195,7 +195,7 @@ def cycle_free(cycles, v):
     return z3.And(*cs) if cs else z3.BoolVal(True)
 
 
-def c05_loopless(E, templates=(("T3", ("R2",)), ("T3", ("R1",)))):
+def c05_loopless(E, templates=(("T3", ("R2",)), ("T3", ("R1",)), ("T10", ("R3",)), ("T10", ("EX_A",)))):
     env.for_path(E)
     tid, which = E.pick("template", templates)
     m = networks.build(tid)
@@ -230,6 +230,12 @@ def c05_loopless(E, templates=(("T3", ("R2",)), ("T3", ("R1",)))):
         a, b = lift(ll.at[rid, "minimum"]), lift(ll.at[rid, "maximum"])
         pa, pb = lift(plain.at[rid, "minimum"]), lift(plain.at[rid, "maximum"])
         E.prove(z3.And(pa - sl <= a, a <= b + sl, b <= pb + sl), "loopless-range-inside-plain-range", reaction=rid)
+        if E.symbolic:
+            # loopless_fva_iter works from whichever optimal solution the solver returns for the cycle-free LP (which has
+            # alternative optima); under the LP contract a returned point with the reaction itself below the cutoff makes
+            # the heuristic block that reaction (seen in the design of this harness: T3, max R1 reported 0 instead of 10).
+            # Soundness and tightness therefore depend on the solver's choice and are evaluated on the GLPK replays only.
+            continue
         E.prove(z3.Implies(Pv, z3.And(a - sl <= v[rid], v[rid] <= b + sl)), "loopless-range-sound", reaction=rid)
         for what, val in (("minimum", a), ("maximum", b)):
             w = lp.fresh_point(E, "att_%s_%s" % (what, rid))
@@ -246,8 +252,9 @@ HARNESSES = [
       bounds="T1,T2,T3,T7 all bounds symbolic, T4 first 4; fractions {1,9/10,1/2,0}"),
     H("c05_pfba_factor", c05_pfba_factor, tiers=("quick",), quick=dict(max_paths=3000, time_budget=45),
       bounds="T2,T3; first 3 reactions symbolic; pfba_factor in {1, 11/10}; fraction in {1,1/2}"),
-    H("c05_loopless", c05_loopless, quick=dict(max_paths=3000, time_budget=70), thorough=dict(max_paths=100000, time_budget=500),
-      bounds="T3 (2-cycles R1/R2, R3/R2, R1/-R3), one symbolic reaction (R2 or R1; 0 or |b|>=1e-2); loopless=True for 2 internal "
+    H("c05_loopless", c05_loopless, quick=dict(max_paths=3000, time_budget=70, witnesses=40),
+      thorough=dict(max_paths=100000, time_budget=500, witnesses=200), witness_every=4,
+      bounds="T3 (2-cycles R1/R2, R3/R2) and T10 (cycle R1 with -R3, uptake below cycle capacity), one symbolic reaction (0 or |b|>=1e-2); loopless=True for 2 internal "
              "reactions; oracle = optimal steady-state distributions in which no elementary internal cycle runs in its orientation; "
              "instances without a cycle-free optimal distribution (forced loops, documented as kept) excluded"),
     H("c05_pfba_factor_thorough", c05_pfba_factor_thorough, tiers=("thorough",),
